@@ -153,9 +153,9 @@ func (d *Decl) newLateGroup(r *Rand, host *Grp, cm *Cmd, via string, required bo
 type histMutation struct {
 	Kind  string
 	Label string
-	Focus *Opt   // option the second use should mention
-	Cmd   *Cmd   // command the uses should reach
-	Extra string // an extra token for the second vector (e.g. the old spelling, a removed choice)
+	Focus *Opt     // option the second use should mention
+	Cmd   *Cmd     // command the uses should reach
+	Extra string   // an extra token for the second vector (e.g. the old spelling, a removed choice)
 	Args1 []string // the command words of the first use, rendered before the model moved to state B (renamed commands)
 	live  func(b *Built) error
 }
